@@ -1,7 +1,7 @@
 """Reference beam search: per-instance, list-of-prefixes; independent of rl4co.utils.decoding.BeamSearch.
 
     ref = reference_beam_search(policy, env, td_reset, width, starts=None, follow=None, max_steps=None,
-                                temperature=None, tanh_clipping=None)
+                                temperature=None, tanh_clipping=None, top_k=0, top_p=0.0)
 
 What the bundled BeamSearch does (read from rl4co/utils/decoding.py, mirrored here in *what* is compared, not how):
 
@@ -33,8 +33,17 @@ Two modes
           statement "kept beams are the highest scoring feasible expansions of the previous beams" checkable at every
           step, also after near-ties.
 
+Decoding filters (top_k > 0 / 0 < top_p < 1, documented semantics of process_logits, vf.models.decode.ref_filter): the step
+distribution of every beam is the log-softmax over the entries its filters keep; filtered-out actions are no candidates
+(-inf).  Every beam keeps at least its most probable action, so an instance always has >= W finite candidates.  A beam
+whose kept set hinges on float rounding (ref_filter's ambiguity band) makes its instance *tainted* from that step on
+(`tainted_at[b]`): the scores an implementation ranks there may legitimately differ by a whole renormalisation, so for a
+tainted instance the guided mode only keeps following the implementation's prefixes (any mask-feasible expansion is
+accepted, filtered-out ones with score -inf) and the caller must not assert anything about its scores.
+
 Returned BeamRef
     W, B
+    tainted_at  list over instances: first step whose candidate set was rounding-dependent (None: never)
     starts      [W*B] long      forced first moves used (start-major)
     steps       list of BeamStep, steps[0] = forced start step, steps[t] = t-th decoded step
     invalid     None | (t, b, slot, prefix)
@@ -93,6 +102,7 @@ class BeamRef:
     done_at: torch.Tensor
     reordered: bool
     td: object
+    tainted_at: Optional[list] = None
 
     def kept_scores(self, t, b):
         return sorted((bm.score for bm in self.steps[t].kept[b]), reverse=True)
@@ -114,7 +124,7 @@ def _gather_rows(td, rows):
 
 @torch.no_grad()
 def reference_beam_search(policy, env, td_reset, width, starts=None, follow=None, max_steps=None, temperature=None,
-                          tanh_clipping=None):
+                          tanh_clipping=None, top_k=0, top_p=0.0):
     T_ = float(policy.temperature if temperature is None else temperature)
     C_ = float(policy.tanh_clipping if tanh_clipping is None else tanh_clipping)
     W = int(width)
@@ -151,6 +161,8 @@ def reference_beam_search(policy, env, td_reset, width, starts=None, follow=None
     mask_ok = True
     invalid = None
     reordered = False
+    filtering = bool((top_k and top_k > 0) or (top_p and 0.0 < top_p < 1.0))
+    tainted_at = [None] * B
     t = 1
     while True:
         if follow is not None:
@@ -167,26 +179,41 @@ def reference_beam_search(policy, env, td_reset, width, starts=None, follow=None
         mask = mask.clone()
         if mask.shape != env_mask.shape or not torch.equal(mask, env_mask):
             mask_ok = False
-        lp = ref_log_softmax(logits, mask, T_, C_)  # [R, N] float64, -inf outside the mask
+        if filtering:
+            # [R, N] float64, -inf outside the mask and outside the kept set of the filters; amb [R]: kept set hinges on rounding
+            lp, _nf, amb, _ambx = ref_log_softmax(logits, mask, T_, C_, top_k=top_k, top_p=top_p, with_filter=True)
+            for r in torch.nonzero(amb).flatten().tolist():
+                if tainted_at[r % B] is None:
+                    tainted_at[r % B] = t
+        else:
+            lp = ref_log_softmax(logits, mask, T_, C_)  # [R, N] float64, -inf outside the mask
 
         st = BeamStep(kept=[], top=[], gap=[], ncand=[], nfeas=[])
         parent_rows = [None] * R
         actions = [None] * R
         for b in range(B):
-            cands = []  # (score, parent slot, action, logp)
-            nfe = []
-            for j, bm in enumerate(beams[b]):
-                row = lp[j * B + b]
-                feas = torch.nonzero(row > -math.inf).flatten().tolist()
-                nfe.append(len(feas))
-                for a in feas:
-                    l = float(row[a])
-                    cands.append((bm.score + l, j, int(a), l))
-            cands.sort(key=lambda c: (-c[0], c[1], c[2]))
+            loose = tainted_at[b] is not None  # tainted: every mask-feasible expansion stays followable (score may be -inf)
+            while True:
+                cands = []  # (score, parent slot, action, logp)
+                nfe = []
+                for j, bm in enumerate(beams[b]):
+                    row = lp[j * B + b]
+                    feas = torch.nonzero(mask[j * B + b] if loose else row > -math.inf).flatten().tolist()
+                    nfe.append(len(feas))
+                    for a in feas:
+                        l = float(row[a])
+                        cands.append((bm.score + l, j, int(a), l))
+                if loose or len(cands) >= W:
+                    break
+                # fewer than W finite candidates (cannot happen while every beam keeps its best action): what an
+                # implementation keeps beyond them is undefined -> don't-care from here on
+                tainted_at[b] = t
+                loose = True
+            cands.sort(key=lambda c: (-c[0] if c[0] == c[0] else math.inf, c[1], c[2]))
             st.ncand.append(len(cands))
             st.nfeas.append(nfe)
             st.top.append([c[0] for c in cands[:W]])
-            st.gap.append(cands[W - 1][0] - cands[W][0] if len(cands) > W else math.inf)
+            st.gap.append(math.inf if (loose or len(cands) <= W) else cands[W - 1][0] - cands[W][0])
             if follow is None:
                 chosen = cands[:W]
             else:
@@ -222,4 +249,5 @@ def reference_beam_search(policy, env, td_reset, width, starts=None, follow=None
         beams = st.kept
         steps.append(st)
         t += 1
-    return BeamRef(W, B, starts, steps, invalid, mask_ok, all_done_at, torch.tensor(done_at, dtype=torch.long), reordered, td)
+    return BeamRef(W, B, starts, steps, invalid, mask_ok, all_done_at, torch.tensor(done_at, dtype=torch.long), reordered, td,
+                   tainted_at)
